@@ -160,4 +160,8 @@ def get_ast(func):
         return None
     source = inspect.cleandoc('\n' + rawsource)
     module = ast.parse(source)
-    return module.body[0]
+    node = module.body[0]
+    if not isinstance(node, (ast.FunctionDef, ast.AsyncFunctionDef)):
+        # eg. the statement a lambda was defined in
+        return None
+    return node
